@@ -18,7 +18,7 @@ RULE = ("case = 1-3 Ethereum txs of a fresh signer (fund 4e5..3e15 unibi), each 
         "selfdestruct to B / to self, forward+revert, FunToken precompile bankMsgSend, the same + revert), contract Y "
         "(frame that reverts after a precompile call), driver contract D calling X 2-5 times in one tx (self-destructs to B/R/D/self "
         "interleaved with payments into X and transfers out), contract creation (ok / reverting init). Measured around DeliverTx: "
-        "bank supply(unibi), balances of 10 scenario accounts, GasUsed, VmError. non-trivial = passed the ante handler AND "
+        "bank supply(unibi), balances of 12 scenario accounts, GasUsed, VmError. non-trivial = passed the ante handler AND "
         "(effective price not a multiple of 10^12 or value with sub-unibi remainder or target has code or failed after ante); "
         "distinct = distinct input")
 ASSUMPTIONS = [
@@ -38,7 +38,7 @@ def _z(x):
     return "(%d)%%Z" % int(x)
 
 
-def _script(tx, d, o):
+def _script(tx, d, o, xwei_now=None):
     """effects of a successful EVM run (beyond the top-level value transfer), from scenario knowledge"""
     if d["expect"] != "ok":
         return None
@@ -79,7 +79,7 @@ def _script(tx, d, o):
     if tgt == "y":
         return ["OTransfer 6 7 %s" % _z(5 * K)] if before[6] >= 5 else []
     w = int(tx["w"] or "0")
-    xwei = (before[3] + vn) * K
+    xwei = (before[3] + vn) * K if xwei_now is None else xwei_now + vn * K
     if mode == 0:
         return []
     if mode == 3:
@@ -101,12 +101,48 @@ def _outcome(o):
     return "VmErr" if o["vmerr"] else "Ok"
 
 
-def _otx(tx, d, o):
-    sc = _script(tx, d, o)
+def _etx(tx, d, sc, gasused):
     evm = "EvmFail" if sc is None else "(EvmOk [%s])" % "; ".join(sc)
     fee = "{| f_type := %s; f_gas_price := %s; f_tip := %s; f_cap := %s |}" % (_TY[tx["ty"]], _z(tx["gp"]), _z(tx["tip"]), _z(tx["cap"]))
-    etx = ("{| t_fee := %s; t_gas := %s; t_value := %s; t_to := %d; t_intrinsic := %s; t_evm := %s; t_gas_used := %s |}"
-           % (fee, _z(d["gas"]), _z(d["value"]), d["to"], _z(d["intrinsic"]), evm, _z(max(o["gasused"], 0))))
+    return ("{| t_fee := %s; t_gas := %s; t_value := %s; t_to := %d; t_intrinsic := %s; t_evm := %s; t_gas_used := %s |}"
+            % (fee, _z(d["gas"]), _z(d["value"]), d["to"], _z(d["intrinsic"]), evm, _z(max(gasused, 0))))
+
+
+def _is_bundle(tx):
+    return bool(tx.get("bundle"))
+
+
+def _boutcome(o):
+    if not o["ante"]:
+        return "BRejected"
+    if o["code"] != 0:
+        return "BMsgErr"
+    return "(BDone [%s])" % "; ".join("VmErr" if v else "Ok" for v in o["vmerr_list"])
+
+
+def _obundle(tx, d, o):
+    subs, ders = tx["bundle"], d["msgs"]
+    gl, vl = o.get("gasused_list") or [], o.get("vmerr_list") or []
+    xwei = int(o["before"][3]) * K
+    items = []
+    for i, (sub, sd) in enumerate(zip(subs, ders)):
+        sc = _script(sub, sd, o, xwei_now=xwei)
+        ran_ok = i < len(vl) and not vl[i] and sc is not None
+        if ran_ok and sub["target"] == "x":
+            xwei += (int(sd["value"]) // K) * K
+            if sub["mode"] == 3 and sc:
+                xwei -= int(sub["w"])
+        items.append("(%d%%nat, %s)" % (sd["signer"], _etx(sub, sd, sc, gl[i] if i < len(gl) else 0)))
+    return ("{| ob_base_fee := %s; ob_block_gas := %s; ob_msgs := [%s]; ob_out := %s;\n      ob_before := [%s]; ob_after := [%s]; "
+            "ob_supply_before := %s; ob_supply_after := %s |}"
+            % (_z(d["basefee"]), _z(d["blockgas"]), ";\n        ".join(items), _boutcome(o),
+               "; ".join(_z(x) for x in o["before"]), "; ".join(_z(x) for x in o["after"]),
+               _z(o["supply_before"]), _z(o["supply_after"])))
+
+
+def _otx(tx, d, o):
+    sc = _script(tx, d, o)
+    etx = _etx(tx, d, sc, o["gasused"])
     return ("{| o_base_fee := %s; o_block_gas := %s; o_tx := %s; o_out := %s;\n      o_before := [%s]; o_after := [%s]; "
             "o_supply_before := %s; o_supply_after := %s |}"
             % (_z(d["basefee"]), _z(d["blockgas"]), etx, _outcome(o),
@@ -114,8 +150,24 @@ def _otx(tx, d, o):
                _z(o["supply_before"]), _z(o["supply_after"])))
 
 
+def _triples(rec):
+    return list(zip(rec["input"]["txs"], rec["der"], rec["obs"]))
+
+
+def _flat(rec):
+    """(message spec, derived, tx obs, is_bundle_member) for every message of every tx"""
+    for tx, d, o in _triples(rec):
+        if _is_bundle(tx):
+            for sub, sd in zip(tx["bundle"], d["msgs"]):
+                yield sub, sd, o, True
+        else:
+            yield tx, d, o, False
+
+
 def to_coq_case(rec):
-    return "[%s]" % ";\n    ".join(_otx(tx, d, o) for tx, d, o in zip(rec["input"]["txs"], rec["der"], rec["obs"]))
+    singles = [_otx(tx, d, o) for tx, d, o in _triples(rec) if not _is_bundle(tx)]
+    bundles = [_obundle(tx, d, o) for tx, d, o in _triples(rec) if _is_bundle(tx)]
+    return "([%s],\n    [%s])" % (";\n    ".join(singles), ";\n    ".join(bundles))
 
 
 def _eff_price(tx, base):
@@ -125,9 +177,11 @@ def _eff_price(tx, base):
 
 
 def nontrivial(rec):
-    for tx, d, o in zip(rec["input"]["txs"], rec["der"], rec["obs"]):
+    for tx, d, o, inb in _flat(rec):
         if not o["ante"]:
             continue
+        if inb:
+            return True
         p = _eff_price(tx, int(d["basefee"]))
         if p % K or int(d["value"]) % K or tx["target"] != "eoa" or o["code"] != 0 or o["vmerr"]:
             return True
@@ -136,8 +190,13 @@ def nontrivial(rec):
 
 def classify(rec):
     ks = ["txs=%d" % len(rec["input"]["txs"])]
-    for tx, d, o in zip(rec["input"]["txs"], rec["der"], rec["obs"]):
-        ks.append("outcome=" + _outcome(o))
+    for tx, d, o in _triples(rec):
+        if _is_bundle(tx):
+            sg = [sd["signer"] for sd in d["msgs"]]
+            ks.append("bundle:msgs=%d/signers=%d/%s" % (len(sg), len(set(sg)), _boutcome(o).split(" ")[0].strip("(")))
+    for tx, d, o, inb in _flat(rec):
+        if not inb:
+            ks.append("outcome=" + _outcome(o))
         ks.append("type=%d" % tx["ty"])
         ks.append("gas=" + tx["gasmode"])
         ks.append("target=" + tx["target"] + ("/mode%d" % tx["mode"] if tx["target"] in ("x", "create") else ""))
@@ -151,6 +210,8 @@ def classify(rec):
             ks.append("nominal-price-below-base/type=%d" % tx["ty"])
         v = int(d["value"])
         ks.append("value:" + ("0" if v == 0 else ("sub-unibi" if v < K else ("whole" if v % K == 0 else "remainder"))))
+        if inb:
+            continue
         ds = int(o["supply_after"]) - int(o["supply_before"])
         ks.append("supply_delta:" + ("0" if ds == 0 else ("neg" if ds < 0 else "POS")))
     return ks
@@ -161,13 +222,14 @@ def describe(rec):
 
 
 def signature(rec):
-    kinds = sorted({tx["target"] + (str(tx["mode"]) if tx["target"] == "x" else "") for tx in rec["input"]["txs"]})
+    kinds = sorted({tx["target"] + (str(tx["mode"]) if tx["target"] == "x" else "") for tx, _, _, _ in _flat(rec)}
+                   | ({"bundle"} if any(_is_bundle(tx) for tx in rec["input"]["txs"]) else set()))
     pos = any(int(o["supply_after"]) > int(o["supply_before"]) for o in rec["obs"])
     return {"kind": "supply-increase" if pos else "fee-or-conservation", "targets": kinds}
 
 
 def input_size(inp):
-    return len(inp["txs"]) * 100 + sum(len(tx["gp"]) + len(tx["value"]) + len(tx["w"]) + 50 * len(tx.get("steps") or []) for tx in inp["txs"])
+    return len(inp["txs"]) * 100 + sum(80 * len(tx.get("bundle") or []) for tx in inp["txs"]) + sum(len(tx["gp"]) + len(tx["value"]) + len(tx["w"]) + 50 * len(tx.get("steps") or []) for tx in inp["txs"])
 
 
 def shrink_candidates(inp):
@@ -177,6 +239,12 @@ def shrink_candidates(inp):
         for i in range(len(txs)):
             out.append(dict(inp, txs=txs[:i] + txs[i + 1:]))
     for i, tx in enumerate(txs):
+        bd = tx.get("bundle") or []
+        if len(bd) > 2:
+            for j in range(len(bd)):
+                out.append(dict(inp, txs=txs[:i] + [dict(tx, bundle=bd[:j] + bd[j + 1:])] + txs[i + 1:]))
+        if bd:
+            continue
         st = tx.get("steps") or []
         if len(st) > 1:
             for j in range(len(st)):
